@@ -1,0 +1,90 @@
+//go:build verif
+
+// Package verifhook provides named schedule/crash points used by the external
+// verification harness (build tag "verif").
+//
+// A point's action is configured programmatically with Set, or for plugin
+// subprocesses through the environment:
+//
+//	GOPLUGIN_VERIF_POINTS="serve.after-line=exit:3,muxbroker.accept.took=sleep:20ms,x=kill"
+//
+// Actions: exit:<code>, kill (SIGKILL self), sleep:<duration>, sleep-once:<duration>.
+package verifhook
+
+import (
+	"os"
+	"strconv"
+	"strings"
+	"sync"
+	"syscall"
+	"time"
+)
+
+var (
+	mu     sync.RWMutex
+	points = map[string]func(){}
+)
+
+func init() {
+	spec := os.Getenv("GOPLUGIN_VERIF_POINTS")
+	if spec == "" {
+		return
+	}
+	for _, ent := range strings.Split(spec, ",") {
+		kv := strings.SplitN(ent, "=", 2)
+		if len(kv) != 2 {
+			continue
+		}
+		if fn := parseAction(kv[1]); fn != nil {
+			points[kv[0]] = fn
+		}
+	}
+}
+
+func parseAction(a string) func() {
+	switch {
+	case strings.HasPrefix(a, "exit:"):
+		code, _ := strconv.Atoi(a[5:])
+		return func() { os.Exit(code) }
+	case a == "kill":
+		return func() {
+			_ = syscall.Kill(os.Getpid(), syscall.SIGKILL)
+			time.Sleep(time.Hour)
+		}
+	case strings.HasPrefix(a, "sleep:"):
+		d, err := time.ParseDuration(a[6:])
+		if err != nil {
+			return nil
+		}
+		return func() { time.Sleep(d) }
+	case strings.HasPrefix(a, "sleep-once:"):
+		d, err := time.ParseDuration(a[11:])
+		if err != nil {
+			return nil
+		}
+		var once sync.Once
+		return func() { once.Do(func() { time.Sleep(d) }) }
+	}
+	return nil
+}
+
+// Set installs (or with fn == nil removes) the action of a point.
+func Set(name string, fn func()) {
+	mu.Lock()
+	defer mu.Unlock()
+	if fn == nil {
+		delete(points, name)
+		return
+	}
+	points[name] = fn
+}
+
+// Point runs the action configured for name, if any.
+func Point(name string) {
+	mu.RLock()
+	fn := points[name]
+	mu.RUnlock()
+	if fn != nil {
+		fn()
+	}
+}
